@@ -1015,9 +1015,9 @@ func main() {
 		return
 	}
 
-	n := r.N(1600, 32000)
+	n := r.N(1600, 80000)
 	if r.Phase == "race" {
-		n = r.N(320, 4000)
+		n = r.N(320, 12000)
 	}
 	if *casesFlag > 0 {
 		n = *casesFlag
